@@ -87,9 +87,20 @@ def run_cases(ctx, cases, compare, rng, quick, per_batch=28, nwalk=None, enum_bu
             progs += [p for p in c.progs if p is not None]
         if not progs:
             continue
-        batch = cdrv.Batch(progs).build()
+        batch = cdrv.Batch(progs)
+        try:
+            batch.build()
+        except cdrv.BuildError:
+            batch.live = []
         for p, err in batch.failed:
             ctx.count("c_compile_failures")
+            # emitted C that the sanitizer build rejects: no behaviour to compare, but not something to pass over in silence
+            first = next((l for l in (err or "").splitlines() if "error" in l), (err or "?").strip().splitlines()[0] if (err or "").strip() else "?")
+            ctx.violation("%s:emitted-c-does-not-compile" % ctx.pid.lower(), "clang rejects the emitted C of a variant: %s" % first[:200],
+                          {"nmfu_source": p.meta.get("src"), "nmfu_args": p.meta.get("args"), "stderr": (err or "")[:3000]})
+        if not batch.live:
+            batch.cleanup()
+            continue
         live = {p.name for p in batch.live}
         runs = []
         for c in bcases:
